@@ -212,7 +212,7 @@ func newSeg(pool []K2, rng *rand.Rand) *model2d.Segment {
 }
 
 func meshHistories2(r *vlib.Run) {
-	n := r.N(1500, 30000)
+	n := r.N(6000, 60000)
 	r.Section("mesh2d", n, vlib.SectionOpts{}, func(c *vlib.Case) {
 		rng := c.Rng
 		pool := keys2(rng)
@@ -393,7 +393,7 @@ func checkFresh(c *vlib.Case, api string, mesh *model3d.Mesh, rng *rand.Rand) {
 }
 
 func editors(r *vlib.Run) {
-	n := r.N(60, 600)
+	n := r.N(200, 1500)
 	r.Section("editors", n, vlib.SectionOpts{}, func(c *vlib.Case) {
 		rng := c.Rng
 		b := &blob{}
